@@ -22,8 +22,10 @@ from pathlib import Path
 VERIF = Path(__file__).resolve().parent.parent
 LEAN = VERIF / "lean"
 REPO = Path(os.environ.get("SOLVOR_REPO", "/repo"))
-EVIDENCE = VERIF / "evidence"
-REPLAYS = VERIF / "replays"
+# developer aid: mutation experiments redirect evidence/replays so that committed evidence only ever
+# comes from runs against the unchanged /repo
+EVIDENCE = Path(os.environ.get("VERIF_EVIDENCE_DIR") or (VERIF / "evidence"))
+REPLAYS = Path(os.environ.get("VERIF_REPLAYS_DIR") or (VERIF / "replays"))
 CORPUS = VERIF / "corpus"
 ALLOWED_AXIOMS = {"propext", "Classical.choice", "Quot.sound"}
 FORBIDDEN = re.compile(
@@ -311,13 +313,17 @@ class Ctx:
         if len(self.violations) >= 5:
             self.count("violations_not_written")
             return True
-        REPLAYS.mkdir(exist_ok=True)
+        REPLAYS.mkdir(parents=True, exist_ok=True)
         body = {"property": self.prop, "function": function, "class": klass, "what": what,
                 "seed": self.seed, "tier": self.tier, "no_failing_input_found": no_input, **replay}
         h = hashlib.sha1(json.dumps(body, sort_keys=True, default=str).encode()).hexdigest()[:10]
         path = REPLAYS / f"{self.prop}_{function}_{h}.json"
         path.write_text(json.dumps(body, indent=1, default=str))
-        self.violations.append({"path": str(path.relative_to(VERIF)), "no_input": no_input, "what": what,
+        try:
+            shown = str(path.relative_to(VERIF))
+        except ValueError:
+            shown = str(path)
+        self.violations.append({"path": shown, "no_input": no_input, "what": what,
                                 "function": function, "class": klass})
         return True
 
@@ -351,7 +357,7 @@ class Ctx:
             "wall_s": round(time.time() - self.t0, 2),
             "violations": len(self.violations),
         }
-        EVIDENCE.mkdir(exist_ok=True)
+        EVIDENCE.mkdir(parents=True, exist_ok=True)
         (EVIDENCE / f"{self.prop}.json").write_text(json.dumps(ev, indent=1, default=str))
         for m in self.known_hits:
             print(f"KNOWN-FINDING: property={self.prop} {m}")
